@@ -95,7 +95,7 @@ def oracle_export(rep: Report, lines, firsts, bin_bytes, titles):
 def run(ctx, rep: Report, deep: bool = False):
     rng = ctx.rng
     rep.rule = (
-        "bin/cue pairs: 1..8 audio tracks, 1..3 INDEX lines each, with/without TITLE, strictly increasing first indices, bin length = last offset + "
+        "bin/cue pairs: 1..8 audio tracks numbered 1..n, with gaps, or in no order at all, 1..3 INDEX lines each, with/without TITLE, strictly increasing first indices, bin length = last offset + "
         "{1,3,4,2351,2352,2353,random}; real end-to-end export compared with the bin slices (oracle) and the model's windows with the real ones; "
         "also sheets with index-less tracks, data tracks, equal indices (model/impl only); distinct = distinct op line; non-trivial = >= 2 tracks"
     )
@@ -106,7 +106,16 @@ def run(ctx, rep: Report, deep: bool = False):
         lines = ['FILE "disc.bin" BINARY\n']
         cur = rng.choice([0, 0, 2, rng.randint(0, 60)])
         firsts, titles = [], []
-        for k in range(1, nt + 1):
+        # track numbers: 1..n, gapped, or in no order at all - "the next track" is the next one in the sheet (S99)
+        r = rng.random()
+        numbers = list(range(1, nt + 1))
+        if r < 0.15:
+            numbers = sorted(rng.sample(range(1, 100), nt))
+        elif r < 0.4:
+            numbers = rng.sample(range(1, 100), nt)
+            if numbers != sorted(numbers):
+                rep.feat("track_numbers_out_of_order")
+        for k in numbers:
             lines.append(f"  TRACK {k:02d} AUDIO\n")
             if titled and rng.random() < 0.7:
                 t = f"Song {k} x{rng.randint(0, 99)}"
@@ -159,7 +168,7 @@ def run(ctx, rep: Report, deep: bool = False):
         rep.feat("odd_sheets")
     if ctx.model_available:
         compare_family(rep, "cdda", [c for c in cases if c.impl != "skip"], nontrivial=lambda c: c.impl.count(";") >= 2)
-    rep.required_features = ["pairs_exported", "multi_track", "odd_sheets", "tail_2352", "tail_3"]
+    rep.required_features = ["pairs_exported", "multi_track", "odd_sheets", "tail_2352", "tail_3", "track_numbers_out_of_order"]
 
 
 def search(ctx, rep: Report):
